@@ -35,3 +35,22 @@ Definition reachable_from (U : universe) (rootreqs : list node) : node -> Prop :
   reachable (u_required U rootreqs) target.
 
 Definition same_set (a b : list node) : Prop := forall x, In x a <-> In x b.
+
+(** ** Well-formed inputs (what project.LoadConfigBytes and the tag scanner guarantee):
+    every requirement names a non-empty path at a canonical semantic version *)
+Definition wf_node (n : node) : Prop := fst n <> [] /\ exists s, snd n = VSem s.
+Definition wf_reqs (l : list node) : Prop := forall n, In n l -> wf_node n.
+Definition wf_universe (U : universe) : Prop :=
+  (forall e, In e (u_sums U) -> wf_reqs (s_reqs (snd e))) /\
+  (forall t, In t (u_tags U) -> wf_node (fst t)).
+
+(** the version selected for a path in a build list / "absent" *)
+Definition selected (bl : list node) (p : str) : option version := find_path p bl.
+
+(** no project of [bl1] is missing from or lower in [bl2] *)
+Definition no_lower (bl1 bl2 : list node) : Prop :=
+  forall p v, In (p, v) bl1 -> exists w, In (p, w) bl2 /\ vle v w = true.
+
+(** requirement names: a configuration is a Go map, so names are unique; "no two names share a path" *)
+Definition names_unique (c : config) : Prop := NoDup (map fst c).
+Definition paths_unique (c : config) : Prop := NoDup (map (fun e => fst (snd e)) c).
